@@ -383,9 +383,11 @@ theorem applyPlan_frame (t : Tree) (p : Plan) (q : Path) (h : planned p q = fals
     rw [Bool.or_eq_true, not_or] at this
     exact ⟨by simpa using this.1, by simpa using this.2⟩
   have hc := contentPhase_frame p.hunks q (sortedFiles p.hunks) t hfiles
-  unfold applyPlan
-  by_cases hpf : preflightOk t p.rens = true
-  · simp only [hpf, Bool.not_true, Bool.false_eq_true, if_false]
+  cases hpf : preflight t [] p.rens with
+  | some o => unfold applyPlan; rw [hpf]
+  | none =>
+    unfold applyPlan; rw [hpf]; simp only
+    unfold applyCore
     cases hcp : contentPhase p.hunks t (sortedFiles p.hunks) with
     | mk o t1 =>
       rw [hcp] at hc
@@ -404,7 +406,5 @@ theorem applyPlan_frame (t : Tree) (p : Plan) (q : Path) (h : planned p q = fals
           · split <;> (simp only; rename_i heq; rw [heq] at hrb; simp only at hrb; rw [hrb, hrp]; exact hc)
           · simp only; rw [hrp]; exact hc
       · rw [hrp]; exact hc
-  · have hpf' : preflightOk t p.rens = false := by simpa using hpf
-    simp [hpf']
 
 end ApplyFrame
